@@ -438,6 +438,9 @@ func checkMain(args []string, t *testing.T) int {
 		if *tier == "thorough" {
 			want = 64
 		}
+		if spec.SelfCheckRuns > 0 {
+			want = spec.SelfCheckRuns
+		}
 		step := len(all)/want + 1
 		for i := 0; i < len(all); i += step {
 			sample = append(sample, all[i])
@@ -776,6 +779,14 @@ func shrinkMain(args []string, t *testing.T) int {
 	return 0
 }
 
+var commands = map[string]func(args []string) int{}
+
+// RegisterCommand adds an engine-specific sub-command (e.g. a child-process mode).
+func RegisterCommand(name string, f func(args []string) int) { commands[name] = f }
+
+// Self returns the path of the running sim binary.
+func Self() string { return self() }
+
 // Main dispatches the sim binary's sub-commands.
 func Main(args []string, t *testing.T) int {
 	if len(args) == 0 {
@@ -832,6 +843,9 @@ func Main(args []string, t *testing.T) int {
 			fmt.Println(id, registry[id].Engine)
 		}
 		return 0
+	}
+	if f := commands[args[0]]; f != nil {
+		return f(args[1:])
 	}
 	fmt.Println("unknown command", args[0])
 	return 2
